@@ -4,6 +4,7 @@ import (
 	"bytes"
 	"encoding/json"
 	"fmt"
+	"math/big"
 	"strconv"
 	"strings"
 
@@ -72,7 +73,7 @@ func sizeOf(m map[string]interface{}) int64 {
 var errInapplicable = fmt.Errorf("fault not applicable to the real document")
 
 // applyJSONFault edits the generic document; returns the new bytes.
-func applyJSONFault(b []byte, ft fault) ([]byte, error) {
+func applyJSONFault(b []byte, ft fault, et *etype) ([]byte, error) {
 	if ft.F == "Truncate" {
 		n := len(b) - 1 - len(b)/3
 		if n < 0 {
@@ -86,6 +87,21 @@ func applyJSONFault(b []byte, ft fault) ([]byte, error) {
 	}
 	m, isObj := root.(map[string]interface{})
 	switch ft.F {
+	case "EntryRange":
+		lit := rangeLiteral(et, ft.Val, ft.Notation)
+		if lit == "" {
+			return nil, errInapplicable
+		}
+		var a []interface{}
+		if ft.Field == "" {
+			a, _ = root.([]interface{})
+		} else if isObj {
+			a, _ = m[ft.Field].([]interface{})
+		}
+		if ft.Idx < 0 || ft.Idx >= len(a) {
+			return nil, errInapplicable
+		}
+		a[ft.Idx] = json.Number(lit)
 	case "DropField":
 		if !isObj {
 			return nil, errInapplicable
@@ -216,7 +232,7 @@ func tableBytes(ls [][]string) []byte {
 	return []byte(sb.String())
 }
 
-func applyTableFault(b []byte, ft fault) ([]byte, error) {
+func applyTableFault(b []byte, ft fault, et *etype) ([]byte, error) {
 	ls := tableLines(b)
 	lineOK := func(i int) bool { return i >= 0 && i < len(ls) }
 	switch ft.F {
@@ -247,6 +263,12 @@ func applyTableFault(b []byte, ft fault) ([]byte, error) {
 			return nil, errInapplicable
 		}
 		ls[ft.Line][ft.Tok] = "x"
+	case "EntryRange":
+		lit := rangeLiteral(et, ft.Val, ft.Notation)
+		if lit == "" || !lineOK(ft.Line) || ft.Tok >= len(ls[ft.Line]) {
+			return nil, errInapplicable
+		}
+		ls[ft.Line][ft.Tok] = lit
 	case "NegDim":
 		if len(ls) == 0 || len(ls[0]) == 0 {
 			return nil, errInapplicable
@@ -364,4 +386,48 @@ func docDims(b []byte, kind string) ([]int, bool) {
 		return []int{int(r), int(c)}, true
 	}
 	return nil, false
+}
+
+// rangeLiteral spells the bound of the integer element type the case names
+// (max, min, above = max+1, below = min-1) as a decimal integer, with a
+// fraction ("128.0") or in exponent notation ("1.28e2"); all three denote the
+// integer exactly.  "" for non-integer element types.
+func rangeLiteral(et *etype, val, notation string) string {
+	if !et.IsInt {
+		return ""
+	}
+	max := new(big.Int).Lsh(big.NewInt(1), uint(et.Bits-1))
+	min := new(big.Int).Neg(max)
+	max.Sub(max, big.NewInt(1))
+	var v *big.Int
+	switch val {
+	case "max":
+		v = max
+	case "min":
+		v = min
+	case "above":
+		v = new(big.Int).Add(max, big.NewInt(1))
+	case "below":
+		v = new(big.Int).Sub(min, big.NewInt(1))
+	default:
+		return ""
+	}
+	dec := v.String()
+	switch notation {
+	case "dec":
+		return dec
+	case "float":
+		return dec + ".0"
+	case "exp":
+		sign, digits := "", dec
+		if digits[0] == '-' {
+			sign, digits = "-", digits[1:]
+		}
+		mant := digits[:1]
+		if len(digits) > 1 {
+			mant += "." + digits[1:]
+		}
+		return fmt.Sprintf("%s%se%d", sign, mant, len(digits)-1)
+	}
+	return ""
 }
